@@ -223,6 +223,13 @@ def V1_tables(ctx):
             # only when pop_next
             if not [a for a in p.events if a.kind == 'atom' and strip(a.d['term']) == ('arg', 3) and a.d['outcome'] == 'true']:
                 bad.append(('handoff-without-pop_next', p.events[-1]))
+    for p in feasible(f.paths()):
+        iterated = any(a.kind == 'atom' and a.d['term'][0] == 'discr' and a.d['term'][1][0] == 'call' and a.d['term'][1][1].endswith('::next') and mentions_field(a.d['term'][1], 'affect_txs') for a in p.events) \
+            or any(e.kind == 'call' and e.d['callee'].endswith('::next') and mentions_field(e.d['args'][0], 'affect_txs') for e in p.events)
+        if not iterated:
+            emp = [a for a in p.events if bool_fact(a) and bool_fact(a)[0][0] == 'call' and bool_fact(a)[0][1].endswith('::is_empty') and bool_fact(a)[1] is True]
+            if not emp:
+                bad.append(('returns-without-visiting-the-dependants-although-the-set-was-not-found-empty', p.events[-1]))
     ctx.count('V1.remove-clears', n_clear)
     ctx.ob('V1', f, 'remove-table', n_clear >= 1 and n_hand >= 1 and not bad,
            f'clears={n_clear} handoffs={n_hand}; ' + '; '.join(f'{w} at {site(f, e)}' for w, e in bad[:3]), site=f.loc(f.b['lo']),
@@ -234,6 +241,9 @@ def V1_tables(ctx):
     for p in feasible(f.paths()):
         for h in track_ds(p):
             if not is_add1(h['x'], ('arg', 2)):
+                bad.append(p)
+            # the successor exists: txid+1 < num_txs (strict) before its state is indexed
+            if not holds_rel(p, h['acquire'] + 1, lambda op, l, r: op == 'Lt' and is_add1(l, ('arg', 2)) and mentions_field(r, 'num_txs')):
                 bad.append(p)
             on_true = [e for e in p.events if e.kind == 'atom' and e.d['term'][0] == 'field' and ds_place(e.d['term']) and ds_place(e.d['term'])[1] == 'onboard' and e.d['outcome'] == 'true']
             if on_true:
@@ -310,6 +320,15 @@ def V1_tables(ctx):
             n_none += 1
             ht = [h for h in hs if h['x'] == ('arg', 2)]
             if len(ht) != 1:
+                bad.append(p)
+                continue
+            # add(t, None) leaves t claimable: it was onboard already, or it is made onboard, unblocked, and the cursor is rewound
+            was_on = [a for a in p.events if a.kind == 'atom' and bool_fact(a) and ds_place(bool_fact(a)[0]) and ds_place(bool_fact(a)[0])[1] == 'onboard']
+            pre_on = bool(was_on) and bool_fact(was_on[0])[1] is True
+            h = ht[0]
+            if not pre_on and not (h['onboard'] is True and h['fetch_min'] and h['dep'] in ('None', None)):
+                bad.append(p)
+            if pre_on and h['onboard'] is False:
                 bad.append(p)
     ctx.ob('V1', f, 'add-table', n_some >= 2 and n_none >= 2 and not bad, f'{len(bad)} deviating path(s): ' + (describe(bad[0]) if bad else ''), site=f.loc(f.b['lo']),
            what='add(t,Some(d)): dependency(t):=Some(d), t and d onboard, reverse edge d→t inserted under AF[d] while DS[t] is held; add(t,None): t made claimable (V2)')
